@@ -297,6 +297,59 @@ theorem ignore_complete (w1 w2 ws id0 trail : Bytes) (more : List (Bytes × Byte
   unfold parseIgnore
   rw [list_complete kwIgnore kw_ignore codeTok sepFree_codeTok w1 w2 ws id0 trail more h1 h2 hws hne hid hmore hacc hstop]
 
+/-- **list soundness**: whenever a list annotation is recognised with at least one item, the line *is*
+    blanks `//` blanks `@K` blanks `ID₀ (blanks , blanks IDᵢ)*` followed by a text after which the line may finish,
+    and the items returned are exactly `ID₀ … IDₙ` in order. Together with `list_complete` this makes the recogniser
+    the documented grammar for list arguments (the only freedom is where a backtracking match ends the list:
+    at the last item after which the line can finish). -/
+theorem list_sound (kw : Bytes) (hkw : IsKw kw) (k : IdClass) (line : Bytes) (n : Bytes) (ns : List Bytes)
+    (h : recogniseList kw k line = some (n :: ns)) :
+    ∃ w1 w2 ws id0 more trail, AllWs w1 ∧ AllWs w2 ∧ AllWs ws ∧ ws ≠ [] ∧ ValidId k id0 ∧ WfItems k more ∧
+      acceptAfter trail = true ∧
+      line = w1 ++ slashes ++ w2 ++ kw ++ (ws ++ (id0 ++ (sepText more ++ trail))) ∧
+      n :: ns = id0 :: more.map (·.2.2) := by
+  unfold recogniseList at h
+  split at h
+  · simp at h
+  · simp at h
+  · rename_i b t hl
+    obtain ⟨w1, w2, h1, h2, e⟩ := (lead_iff kw line (b :: t) hkw).1 hl
+    by_cases hb : isWs b = true
+    · simp only [hb, Bool.not_true, Bool.false_eq_true, if_false] at h
+      obtain ⟨ws, hws, hsplit, hhead⟩ := dropWs_spec (b :: t)
+      have hwsne : ws ≠ [] := by
+        intro hnil
+        rw [hnil, List.nil_append] at hsplit
+        have := hhead b t hsplit.symm
+        rw [hb] at this; exact absurd this (by simp)
+      split at h
+      · -- no identifier after the blanks: only the bare form can match
+        split at h <;> simp at h
+      · rename_i id0 r0 hid
+        obtain ⟨eid, hv⟩ := parseId_some k _ id0 r0 hid
+        split at h
+        · rename_i names hnames
+          simp only [Option.some.injEq] at h
+          obtain ⟨more, trail, hw, hacc, hr, hn⟩ := chain_longest k _ id0 r0 names hnames
+          refine ⟨w1, w2, ws, id0, more, trail, h1, h2, hws, hwsne, hv, hw, hacc, ?_, ?_⟩
+          · rw [e, hsplit, eid, hr]
+          · rw [← h, hn]
+        · split at h <;> simp at h
+    · simp [hb] at h
+
+theorem constructor_sound (line : Bytes) (names : List Bytes) (h : parseConstructor line = some names) :
+    ∃ w1 w2 ws id0 more trail, AllWs w1 ∧ AllWs w2 ∧ AllWs ws ∧ ws ≠ [] ∧ ValidId goIdent id0 ∧ WfItems goIdent more ∧
+      acceptAfter trail = true ∧
+      line = w1 ++ slashes ++ w2 ++ kwConstructor ++ (ws ++ (id0 ++ (sepText more ++ trail))) ∧
+      names = id0 :: more.map (·.2.2) := by
+  unfold parseConstructor at h
+  split at h
+  · rename_i n ns hr
+    simp only [Option.some.injEq] at h
+    rw [← h]
+    exact list_sound kwConstructor kw_constructor goIdent line n ns hr
+  · simp at h
+
 /-- non-vacuity: these lines have the documented shape and yield the three names … -/
 example : parseConstructor (ascii "// @constructor New, Make ,Build and more") = some [ascii "New", ascii "Make", ascii "Build"] := by
   decide
